@@ -927,20 +927,42 @@ protected:
 	}
 #endif
 
-	// convert to native unsigned integer, use C++ conversion rules to cast down to float and double
+	// convert to native unsigned integer: the value x[0] + x[1] + x[2] + x[3] truncated toward zero
 	template<typename Unsigned>
 	Unsigned convert_to_unsigned() const noexcept {
-		int64_t h = static_cast<int64_t>(x[0]);
-		int64_t l = static_cast<int64_t>(x[1]);
-		return Unsigned(h + l);
+		int64_t sum = 0;
+		bool decided = false;
+		for (int i = 0; i < 4; ++i) {
+			double t = std::trunc(x[i]);
+			sum += static_cast<int64_t>(t);
+			// the first limb with a fraction decides: a fraction with the opposite sign puts the value on the near side of the integer
+			double f = x[i] - t;
+			if (!decided && f != 0.0) {
+				if (x[0] > 0.0 && f < 0.0) --sum;
+				if (x[0] < 0.0 && f > 0.0) ++sum;
+				decided = true;
+			}
+		}
+		return Unsigned(sum);
 	}
 	
-	// convert to native unsigned integer, use C++ conversion rules to cast down to float and double
+	// convert to native signed integer: the value x[0] + x[1] + x[2] + x[3] truncated toward zero
 	template<typename Signed>
 	Signed convert_to_signed() const noexcept {
-		int64_t h = static_cast<int64_t>(x[0]);
-		int64_t l = static_cast<int64_t>(x[1]);
-		return Signed(h + l);
+		int64_t sum = 0;
+		bool decided = false;
+		for (int i = 0; i < 4; ++i) {
+			double t = std::trunc(x[i]);
+			sum += static_cast<int64_t>(t);
+			// the first limb with a fraction decides: a fraction with the opposite sign puts the value on the near side of the integer
+			double f = x[i] - t;
+			if (!decided && f != 0.0) {
+				if (x[0] > 0.0 && f < 0.0) --sum;
+				if (x[0] < 0.0 && f > 0.0) ++sum;
+				decided = true;
+			}
+		}
+		return Signed(sum);
 	}
 
 	// convert to native floating-point, use C++ conversion rules to cast down to float and double
